@@ -144,3 +144,23 @@ package ice
 //@   site call onClose#1 ghost released := released + 1
 //@   ensures the-relay-allocation-is-always-released-once: old(c.onClose) != nil ==> released == 1 && c.onClose == nil
 //@   ensures nothing-to-release-otherwise: old(c.onClose) == nil ==> released == 0
+
+// A relay endpoint (allocation + TURN client + local socket) handed to addRelayCandidates
+// is never just dropped: it is offered to a candidate (createRelayCandidate; a failing
+// first offer closes the allocation) or released on the spot.
+//@ func (*Agent).addRelayCandidates
+//@   props C09
+//@   opt nosafety
+//@   ghostvar closedConn bool = false
+//@   ghostvar releasedRest bool = false
+//@   ghostvar offered bool = false
+//@   site call closeConn#0 ghost closedConn := true
+//@   site call onClose#0 ghost releasedRest := true
+//@   site call createRelayCandidate#1 ghost offered := true
+//@   loop 1 invariant every-started-round-made-an-offer: (rangeindex >= 0 ==> offered) && rangeindex + 1 <= len(addresses)
+//@   ensures a-live-endpoint-is-offered-to-a-candidate-or-released-completely: ep.conn != nil && ep.address != nil ==> offered || ((closedConn || ep.closeConn == nil) && (releasedRest || ep.onClose == nil))
+
+//@ func (*Agent).resolveRelayAddresses
+//@   props C09 C19
+//@   opt nosafety
+//@   ensures usable-result-has-at-least-one-address: result1 ==> len(result0) >= 1
